@@ -695,5 +695,36 @@ pub fn build_workload_with(repo: &Path, verif: Option<&Path>, seed: u64, n_gener
             generated += 1;
         }
     }
+    // attribute siblings: the SAME item under an attribute that differs in exactly one option
+    // (a cache or memo keyed by less than the whole (attribute, item) pair needs two such
+    // invocations in one history to show)
+    let toggle = |attr: &str, opt: &str| -> String {
+        let parts: Vec<String> = attr.split(',').map(|x| x.trim().to_string()).filter(|x| !x.is_empty()).collect();
+        let head = opt.split('=').next().unwrap().trim().to_string();
+        if parts.iter().any(|x| x.split('=').next().unwrap().trim() == head) {
+            parts.into_iter().filter(|x| x.split('=').next().unwrap().trim() != head).collect::<Vec<_>>().join(", ")
+        } else {
+            let mut v = parts;
+            v.push(opt.to_string());
+            v.join(", ")
+        }
+    };
+    let base: Vec<Program> = out.clone();
+    for p in &base {
+        if p.variant != "entrait" {
+            continue;
+        }
+        let is_async = p.item.contains("async");
+        for (opt, pm) in [("?Send", if is_async { 1000 } else { 120 }), ("export", 150), ("unimock = false", 100), ("mockall = false", 60)] {
+            if rng.chance(pm) {
+                let mut q = p.clone();
+                q.attr = toggle(&p.attr, opt);
+                q.origin = format!("{} (sibling: {opt} toggled)", p.origin);
+                if q.attr.parse::<proc_macro2::TokenStream>().is_ok() && seen.insert(q.key()) {
+                    out.push(q);
+                }
+            }
+        }
+    }
     (out, n_harvested)
 }
